@@ -299,6 +299,65 @@ CASES = {
             else:
                 return w or (t("x") or t(0) or "end")
         ''', [(0, 0), (1, 0), (0, "u"), (1, "u"), ("", "")]),
+    "reduce_no_init_and_operators": ('''
+        from functools import reduce
+        import operator
+        from operator import iadd
+        STORE = {"a": [1], "b": [2, 3], "c": []}
+        def _get(k):
+            return STORE[k]
+        def anchor(keys):
+            STORE.update({"a": [1], "b": [2, 3], "c": []})
+            out = reduce(iadd, (_get(k) for k in keys))
+            return out, {k: list(v) for k, v in STORE.items()}
+        def anchor2(keys):
+            STORE.update({"a": [1], "b": [2, 3], "c": []})
+            out = reduce(operator.add, [STORE[k] for k in keys], [])
+            tot = reduce(lambda acc, k: acc + len(STORE[k]), keys, 0)
+            return out, tot, {k: list(v) for k, v in STORE.items()}
+        ''', [(["a", "b"],), (["b", "a", "c"],), (["c"],), ([],), (["x"],)]),
+    "cf_oneshot_sentinel": ('''
+        LOG = []
+        _NOTHING = object()
+        def t(x):
+            LOG.append(x)
+            return x
+        def _choose(kind, options, text):
+            if len(options) == 1:
+                return options[0]
+            if kind in options:
+                return kind
+            if any(s in text for s in "*>"):
+                t("search")
+                return options[0]
+            return None
+        def _read(store, key):
+            if key not in store:
+                return None
+            with store[key] as h:
+                return h.get() or {}
+        class _H:
+            def __init__(self, v): self.v = v
+            def __enter__(self): t("enter"); return self
+            def __exit__(self, *a): t("exit"); return False
+            def get(self): return self.v
+        def anchor(kind, options, text):
+            LOG.clear()
+            chosen = _choose(kind, options, text)
+            if chosen is None:
+                t("refused")
+                return ("refused", kind, tuple(LOG))
+            return ("ok", chosen, tuple(LOG))
+        def anchor2(key, new):
+            LOG.clear()
+            store = {"a": _H({"x": 1}), "b": _H(None)}
+            previous = _read(store, key)
+            if previous is not None:
+                previous.update(new)
+                new = previous
+            return new, tuple(LOG)
+        ''', [("k", ["k"], "a"), ("k", ["a", "k"], "a"), ("k", ["a", "b"], "a/*"), ("k", ["a", "b"], "a"), ("k", [], "x"),
+                ("a", {"y": 2}), ("b", {"y": 2}), ("zz", {"y": 2})]),
 }
 
 CROSS = {
